@@ -147,6 +147,10 @@ func runC09(c *Ctx) {
 	c.workerWiring("C09.2")
 	c.stateless("C09.3")
 	c.adoptOnlyOrphans("C09.4")
+	// "recoverable": of two writes that are both started by one condition, the one that makes the condition false comes
+	// last -- the adoption of an orphan revision ends what makes the sync look at that revision at all, so the label sync
+	// it is to get comes before it; a failure in between is then met again by the retry (the order rule of C18.4, as a clause)
+	c.withOnly(map[string]string{"C18.4-sync-before-adopt": "C09.3-the-write-that-ends-the-trigger-comes-last"}, nil, "C09.3-adoption-order", 1, func() { runC18(c) })
 	c.preconditionRejections("C09.4")
 	c.statusRetryShape("C09.5")
 }
@@ -743,7 +747,59 @@ func (c *Ctx) stateless(prefix string) {
 			case *ast.IncDecStmt:
 				lhss = []ast.Expr{s.X}
 			}
+			// a package-level container used as memory: a method of a sync.Map / sync.Pool / list, a map entry set or deleted
+			if call, ok := x.(*ast.CallExpr); ok {
+				pkgVar := func(e ast.Expr) *types.Var {
+					e = ast.Unparen(e)
+					if u, ok := e.(*ast.UnaryExpr); ok && u.Op == token.AND {
+						e = ast.Unparen(u.X)
+					}
+					var id *ast.Ident
+					switch y := e.(type) {
+					case *ast.Ident:
+						id = y
+					case *ast.SelectorExpr:
+						if _, isPkg := info.Uses[rootIdentOrNil(y.X)].(*types.PkgName); isPkg {
+							id = y.Sel
+						}
+					}
+					if id == nil {
+						return nil
+					}
+					v, _ := info.Uses[id].(*types.Var)
+					if v == nil || v.Pkg() == nil || v.Parent() != v.Pkg().Scope() || !inRepoPkg(v.Pkg().Path()) {
+						return nil
+					}
+					return v
+				}
+				if sel, ok := call.Fun.(*ast.SelectorExpr); ok {
+					if v := pkgVar(sel.X); v != nil {
+						t := v.Type()
+						if pt, ok := t.Underlying().(*types.Pointer); ok {
+							t = pt.Elem()
+						}
+						if nt, ok := types.Unalias(t).(*types.Named); ok && nt.Obj().Pkg() != nil {
+							switch nt.Obj().Pkg().Path() {
+							case "sync", "sync/atomic", "container/list", "container/ring", "container/heap", "k8s.io/client-go/tools/cache", "k8s.io/apimachinery/pkg/util/cache":
+								c.Bad(prefix+"-stateless", fi.Obj.Name()+": "+types.ExprString(call.Fun), call.Pos(), "a package-level "+nt.Obj().Pkg().Name()+"."+nt.Obj().Name()+" is used during a reconcile: what one reconcile puts there another one finds (state survives between reconciles, and what was true of the set then need not be true now)")
+							}
+						}
+					}
+				}
+				if id, ok := call.Fun.(*ast.Ident); ok && id.Name == "delete" && len(call.Args) == 2 {
+					if v := pkgVar(call.Args[0]); v != nil {
+						c.Bad(prefix+"-stateless", fi.Obj.Name()+": "+types.ExprString(call), call.Pos(), "an entry of a package-level map is deleted during a reconcile: the map is memory that survives between reconciles")
+					}
+				}
+			}
 			for _, l := range lhss {
+				if ix, ok := ast.Unparen(l).(*ast.IndexExpr); ok {
+					if id, ok := ast.Unparen(ix.X).(*ast.Ident); ok {
+						if v, _ := info.Uses[id].(*types.Var); v != nil && v.Pkg() != nil && v.Parent() == v.Pkg().Scope() && inRepoPkg(v.Pkg().Path()) {
+							c.Bad(prefix+"-stateless", fi.Obj.Name()+": "+types.ExprString(l), l.Pos(), "an entry of a package-level map or slice is written during a reconcile: state survives between reconciles")
+						}
+					}
+				}
 				w := map[string]bool{}
 				gf.WriteTargets(info, l, w)
 				for t := range w {
@@ -1014,4 +1070,9 @@ func (c *Ctx) originalParamName(h *load.FuncInfo, name string, depth int) string
 		return c.originalParamName(caller, id.Name, depth+1)
 	}
 	return id.Name
+}
+
+func rootIdentOrNil(e ast.Expr) *ast.Ident {
+	id, _ := ast.Unparen(e).(*ast.Ident)
+	return id
 }
